@@ -189,6 +189,8 @@ func isNilFunc(v Value) bool {
 		return true
 	case *Closure:
 		return f == nil
+	case *HostFunc:
+		return f == nil
 	case *ssa.Function:
 		return f == nil
 	case *ssa.Builtin:
@@ -226,6 +228,11 @@ func (m *Machine) call(fn Value, args []Value, caller *frame, pos token.Pos) Val
 		return m.callBuiltin(f, args, caller, pos)
 	case *rtypeMethod:
 		return m.callRTypeMethod(caller, f, args)
+	case *HostFunc:
+		if f == nil {
+			m.runtimePanic(caller, "invalid memory address or nil pointer dereference (nil func)")
+		}
+		return f.Fn(m, caller, args)
 	case nil:
 		m.runtimePanic(caller, "invalid memory address or nil pointer dereference (nil func)")
 	}
